@@ -124,8 +124,8 @@ func c01Kinds(maxLen int) [][]string {
 }
 
 type c01Val struct {
-	name string
-	v    func() interface{}
+	name     string
+	v        func() interface{}
 	hashable bool
 }
 
@@ -191,8 +191,8 @@ func ruleNames(rs []*engine.Rule) string {
 // level 1: the rule index alone -----------------------------------------------
 
 type c01RuleSpec struct {
-	name  string
-	kinds []string
+	name   string
+	kinds  []string
 	ik, il int
 }
 
